@@ -650,9 +650,11 @@ Definition lit_natural (t : tt) (ty : toks) : bool :=
 (** [Some tokens] = the expression is a bare literal that must be wrapped in
     `::core::convert::Into::into(..)`; [None] = spliced as written *)
 Definition needs_into (v : nvexpr) (ty : option toks) : bool :=
+  let lit t := match ty with Some ty => negb (lit_natural t ty) | None => true end in
   match v with
-  | XLit t | XNegLit t =>
-      match ty with Some ty => negb (lit_natural t ty) | None => true end
+  | XLit t | XNegLit t => lit t
+  | XUnaryNeg t => lit t                      (* Expr::Unary(Neg, Expr::Lit(Int | Float)) *)
+  | XOther [TPunct "-"; t] => if is_num_lit t then lit t else false
   | _ => false
   end.
 
